@@ -148,3 +148,24 @@ def densmapFlag (densmap : Bool) (lambda frac : α) (n N : Nat) : Bool :=
 end
 end Sgd
 end Umap
+
+namespace Umap
+namespace Sgd
+
+section
+variable {α : Type} [Add α] [Sub α] [Mul α] [Div α] [Neg α] [LT α] [LE α]
+  [DecidableLT α] [DecidableLE α] [OfNat α 0] [OfNat α 1] [NatCast α] [Inhabited α]
+
+/-- the epoch loop with the densMAP switch: in epochs where the flag is on the attractive move
+    carries the density-correlation term `corf n` (computed from the per-epoch statistics of
+    `_optimize_layout_euclidean_densmap_epoch_init`); otherwise the plain epoch runs. -/
+def runEpochsDens (T : Transc α) (rnd : α → α) (P : Params α) (hd tl : Array Nat) (eps epns : Array α)
+    (alpha0 : α) (N : Nat) (densmap : Bool) (lambda frac : α) (corf : Nat → State α → Nat → α → α)
+    (s : State α) : State α :=
+  (List.range N).foldl (fun s n =>
+    epoch T rnd P hd tl eps epns (alphaAt alpha0 N n) n
+      (if densmapFlag densmap lambda frac n N then some (corf n s) else none) s) s
+
+end
+end Sgd
+end Umap
